@@ -37,6 +37,7 @@ type cState struct {
 type cOp struct {
 	Op   string `json:"op"`
 	Typ  cType  `json:"typ"`
+	Mid  cType  `json:"mid"` // SetTypeTwice: the type set first
 	Src  int    `json:"src"`
 	ID   string `json:"id"`
 	Name string `json:"name"`
@@ -128,6 +129,9 @@ func (w *cWorld) apply(op cOp) string {
 	p, _ := catch(func() {
 		switch op.Op {
 		case "SetType":
+			w.col.SetType(softType(op.Typ.Name, op.Typ.Fields, w.km))
+		case "SetTypeTwice":
+			w.col.SetType(softType(op.Mid.Name, op.Mid.Fields, w.km))
 			w.col.SetType(softType(op.Typ.Name, op.Typ.Fields, w.km))
 		case "Add":
 			w.col.Add(w.srcs[op.Src-1])
